@@ -115,6 +115,9 @@ type Engine struct {
 
 	fpCache   map[string]*footprintT
 	fpBusy    map[*ssa.Function]bool
+	fpStack   []*ssa.Function
+	fpTaint   map[*ssa.Function]bool
+	fpTemp    map[string]*footprintT
 	softCache map[*ssa.Function]int
 	recCache  map[*ssa.Function]int
 
@@ -135,7 +138,7 @@ type Engine struct {
 }
 
 func loadEngine(repo, verifDir string) (*Engine, error) {
-	eng := &Engine{repo: repo, verifDir: verifDir, srcCache: map[string][]byte{}, fpCache: map[string]*footprintT{}, fpBusy: map[*ssa.Function]bool{},
+	eng := &Engine{repo: repo, verifDir: verifDir, srcCache: map[string][]byte{}, fpCache: map[string]*footprintT{}, fpBusy: map[*ssa.Function]bool{}, fpTaint: map[*ssa.Function]bool{},
 		softCache: map[*ssa.Function]int{}, recCache: map[*ssa.Function]int{}, boundaries: map[string]bool{}, repoPkgs: map[*types.Package]bool{}}
 	eng.fset = token.NewFileSet()
 	env := append(os.Environ(), "GOFLAGS=-mod=mod", "GOPROXY=off", "GOSUMDB=off", "GOTOOLCHAIN=local", "GOWORK=off")
@@ -628,27 +631,54 @@ func (eng *Engine) footprint(f *ssa.Function, sc *Script) *footprintT {
 		return fp
 	}
 	if eng.fpBusy[f] {
-		return newFP() // recursion: approximated by a second round below
+		// recursion: the cycle is cut here. Everything computed between f and the top of the
+		// stack now lacks what is reachable through f, so those results must not be cached
+		// (f itself, the head of the cycle, is complete: it unions the whole traversal).
+		for i := len(eng.fpStack) - 1; i >= 0 && eng.fpStack[i] != f; i-- {
+			eng.fpTaint[eng.fpStack[i]] = true
+		}
+		return newFP()
+	}
+	// results computed (uncached) earlier in the same outermost traversal
+	if fp, ok := eng.fpTemp[ck]; ok {
+		// a temporary result may lack what is reachable through functions that were busy then:
+		// whoever uses it is not cacheable either (the outermost root still unions everything)
+		for i := len(eng.fpStack) - 1; i >= 1; i-- {
+			eng.fpTaint[eng.fpStack[i]] = true
+		}
+		return fp
 	}
 	eng.fpBusy[f] = true
+	eng.fpStack = append(eng.fpStack, f)
 	saved := freshScope
 	freshScope = nil // callee-relative freshness inside the callee
 	defer func() { freshScope = saved }()
 	fp := newFP()
-	for round := 0; round < 2; round++ {
-		for _, b := range f.Blocks {
-			for _, ins := range b.Instrs {
-				w := eng.instrWrites(ins, sc, f)
-				for k := range w.keys {
-					if strings.HasPrefix(k, "L|") || strings.HasPrefix(k, "IT|") {
-						delete(w.keys, k)
-					}
+	for _, b := range f.Blocks {
+		for _, ins := range b.Instrs {
+			w := eng.instrWrites(ins, sc, f)
+			for k := range w.keys {
+				if strings.HasPrefix(k, "L|") || strings.HasPrefix(k, "IT|") {
+					delete(w.keys, k)
 				}
-				fp.merge(w)
 			}
+			fp.merge(w)
 		}
 	}
 	delete(eng.fpBusy, f)
+	eng.fpStack = eng.fpStack[:len(eng.fpStack)-1]
+	if eng.fpTaint[f] && len(eng.fpStack) > 0 {
+		delete(eng.fpTaint, f)
+		if eng.fpTemp == nil {
+			eng.fpTemp = map[string]*footprintT{}
+		}
+		eng.fpTemp[ck] = fp
+		return fp
+	}
+	delete(eng.fpTaint, f)
+	if len(eng.fpStack) == 0 {
+		eng.fpTemp = nil
+	}
 	eng.fpCache[ck] = fp
 	return fp
 }
